@@ -15,6 +15,12 @@ func VsymC03_Read() {
 	vsymCheckRead(w, 3)
 }
 
+// the same world, read while the buffered batch is being uploaded and a newer one has arrived
+func VsymC03_ReadMidFlush() {
+	w := vsymBuildReadWorld(int32(1), vsym_Param("cache") == 1, false, false)
+	vsymCheckReadMidFlush(w, 3)
+}
+
 // two partitions over the same S3 model and the same cache never see each other's bytes
 func VsymC03_OtherPartition() {
 	w := vsymBuildReadWorld(1, true, false, false)
